@@ -3,6 +3,7 @@
 //! channels (C15, C07 default deadline), and an adversarial peer feeding raw bytes to a real
 //! server channel / client dispatch (C16).
 
+use std::pin::Pin;
 use crate::exec::{run_sim, IdleAct, Knobs, Sim};
 use crate::hist::EvKind;
 use crate::pipe::{self, pipe, End, PipeCfg};
@@ -126,7 +127,10 @@ impl Wire for ClientMessage<String> {
         match s {
             MsgSpec::Req { id, body: b, deadline_ms, trace, span, sampled } => {
                 let mut ctx = context::current();
-                ctx.deadline = sim.instant_at(sim.now_ms() + *deadline_ms as i64);
+                // deadlines are not aligned to whole milliseconds in general: sampled requests
+                // carry a sub-millisecond part derived from their trace seed
+                let frac_us = if *sampled { *trace % 1000 } else { 0 };
+                ctx.deadline = sim.instant_at(sim.now_ms() + *deadline_ms as i64) + Duration::from_micros(frac_us);
                 ctx.trace_context = tctx(*trace, *span, *sampled);
                 Some(ClientMessage::Request(Request { context: ctx, id: *id, message: body(b) }))
             }
@@ -223,6 +227,12 @@ pub struct RtScn {
     /// (a handshake); protocol frames pipelined behind it may already sit in the read buffer.
     #[serde(default)]
     pub preface: bool,
+    /// Serde media only: both ends send the whole message list to each other at the same time,
+    /// each driven dispatcher-style (one task that pumps its writes and its reads in every poll),
+    /// over a pipe far smaller than what either side has to write. Neither direction may wait for
+    /// the other: every message arrives, then end-of-stream, on both sides.
+    #[serde(default)]
+    pub duplex: bool,
 }
 
 const PREFACE: &[u8] = b"tarpc-sim preface frame";
@@ -311,6 +321,34 @@ fn gen_pipe_raw(rng: &mut Rng) -> PipeCfg {
 const YEAR_MS: u64 = 365 * 86_400_000;
 
 pub fn gen_roundtrip(rng: &mut Rng) -> BytesScn {
+    let mut scn = gen_roundtrip_inner(rng);
+    if let BytesScn::Roundtrip(r) = &mut scn {
+        let serde = matches!(r.medium, Medium::SerdeJson | Medium::SerdeBincode);
+        if serde && !r.optional_fields && r.msgs.len() <= 40 && rng.chance(150) {
+            r.duplex = true;
+            r.preface = false;
+            r.back_msgs = 0;
+            r.reader_delay_ms = 0;
+            r.end = EndKind::Close;
+            r.pipe.cap = *rng.pick(&[8usize, 32, 64]);
+            r.pipe.latency_ms = 0;
+            // make sure both sides have more to write than the pipe holds
+            for m in r.msgs.iter_mut() {
+                match m {
+                    MsgSpec::Req { body, .. } | MsgSpec::RespOk { body, .. } | MsgSpec::RespErr { detail: body, .. } => {
+                        if rng.chance(500) {
+                            *body = BodySpec::Large(1);
+                        }
+                    }
+                    _ => {}
+                }
+            }
+        }
+    }
+    scn
+}
+
+fn gen_roundtrip_inner(rng: &mut Rng) -> BytesScn {
     let medium = match rng.below(8) {
         0..=2 => Medium::SerdeJson,
         3..=5 => Medium::SerdeBincode,
@@ -387,6 +425,7 @@ pub fn gen_roundtrip(rng: &mut Rng) -> BytesScn {
         reader_delay_ms,
         back_msgs: if !long_backlog && rng.chance(300) { rng.range(1, 3) as u8 } else { 0 },
         preface: matches!(medium_is_serde, true) && rng.chance(250),
+        duplex: false,
     })
 }
 
@@ -531,6 +570,114 @@ where
     }
 }
 
+/// One end of a duplex exchange: pumps its writes and its reads in every poll, like tarpc's own
+/// dispatch and channel do. `forward`: this is the scenario's writing end (its messages are the
+/// ones the one-directional oracle judges).
+async fn duplex_end<M: Wire, S, E>(sim: Rc<Sim>, mut t: S, scn: RtScn, sh: Rc<RefCell<RtShared>>, forward: bool)
+where
+    S: Sink<M> + Stream<Item = Result<M, E>> + Unpin,
+    <S as Sink<M>>::Error: std::fmt::Debug,
+    E: std::fmt::Debug,
+{
+    use std::task::Poll;
+    let mut next = 0usize;
+    let mut closed = false;
+    let mut eof = false;
+    let record_err = |sh: &Rc<RefCell<RtShared>>, what: String| {
+        let mut s = sh.borrow_mut();
+        if forward {
+            s.back_done.get_or_insert(Err(what));
+        } else {
+            s.reader_done.get_or_insert(Err(what));
+        }
+    };
+    futures::future::poll_fn(|cx| {
+        // write pump
+        while next < scn.msgs.len() {
+            match Pin::new(&mut t).poll_ready(cx) {
+                Poll::Ready(Ok(())) => {
+                    let i = next;
+                    next += 1;
+                    let Some(msg) = M::build(&sim, &scn.msgs[i]) else { continue };
+                    let mut n = msg.norm(&sim);
+                    if forward {
+                        sh.borrow_mut().enc_times.push((n.deadline_us, sim.now_ms() as i128 * 1000));
+                        sim.log(EvKind::Note { what: "enc", a: i as i64, b: sim.now_ms() });
+                    } else {
+                        n.deadline_us = 0;
+                        sh.borrow_mut().back_written.push(n);
+                    }
+                    if let Err(e) = Pin::new(&mut t).start_send(msg) {
+                        record_err(&sh, format!("start_send: {e:?}"));
+                        return Poll::Ready(());
+                    }
+                }
+                Poll::Ready(Err(e)) => {
+                    record_err(&sh, format!("poll_ready: {e:?}"));
+                    return Poll::Ready(());
+                }
+                Poll::Pending => break,
+            }
+        }
+        if !closed {
+            if next == scn.msgs.len() {
+                match Pin::new(&mut t).poll_close(cx) {
+                    Poll::Ready(Ok(())) => closed = true,
+                    Poll::Ready(Err(e)) => {
+                        record_err(&sh, format!("poll_close: {e:?}"));
+                        return Poll::Ready(());
+                    }
+                    Poll::Pending => {}
+                }
+            } else if let Poll::Ready(Err(e)) = Pin::new(&mut t).poll_flush(cx) {
+                record_err(&sh, format!("poll_flush: {e:?}"));
+                return Poll::Ready(());
+            }
+        }
+        // read pump
+        while !eof {
+            match Pin::new(&mut t).poll_next(cx) {
+                Poll::Ready(Some(Ok(m))) => {
+                    let mut n = m.norm(&sim);
+                    if forward {
+                        n.deadline_us = 0;
+                        sh.borrow_mut().received_back.push(n);
+                    } else {
+                        let tnow = sim.now_ms();
+                        sim.log(EvKind::Note { what: "dec", a: sh.borrow().received.len() as i64, b: tnow });
+                        sh.borrow_mut().received.push((n, tnow));
+                    }
+                }
+                Poll::Ready(Some(Err(e))) => {
+                    record_err(&sh, format!("{e:?}"));
+                    return Poll::Ready(());
+                }
+                Poll::Ready(None) => {
+                    eof = true;
+                    let mut s = sh.borrow_mut();
+                    if forward {
+                        s.back_done.get_or_insert(Ok(()));
+                    } else {
+                        s.reader_done.get_or_insert(Ok(()));
+                    }
+                }
+                Poll::Pending => break,
+            }
+        }
+        if closed && eof {
+            Poll::Ready(())
+        } else {
+            Poll::Pending
+        }
+    })
+    .await;
+    sim.log(EvKind::Note { what: "duplex_end_done", a: forward as i64, b: 0 });
+    // keep the closed end alive: end-of-stream must come from the close itself
+    if closed && eof {
+        futures::future::pending::<()>().await;
+    }
+}
+
 fn frame(payload: &[u8]) -> Vec<u8> {
     let mut f = (payload.len() as u32).to_be_bytes().to_vec();
     f.extend_from_slice(payload);
@@ -626,6 +773,13 @@ fn spawn_rt<M: Wire>(sim: &Rc<Sim>, scn: &RtScn, sh: &Rc<RefCell<RtShared>>) -> 
     match &scn.medium {
         Medium::SerdeJson => {
             let (a, b) = pipe(scn.pipe.clone());
+            if scn.duplex {
+                let w = tarpc::serde_transport::new::<End, M, M, Json<M, M>>(Framed::new(a, LengthDelimitedCodec::new()), Json::default());
+                let r = tarpc::serde_transport::new::<End, M, M, Json<M, M>>(Framed::new(b, LengthDelimitedCodec::new()), Json::default());
+                let wt = sim.spawn("writer", duplex_end::<M, _, _>(sim.clone(), w, scn.clone(), sh.clone(), true));
+                let rt = sim.spawn("reader", duplex_end::<M, _, _>(sim.clone(), r, scn.clone(), sh.clone(), false));
+                return (wt, rt);
+            }
             let raw = a.wr.clone();
             let w = tarpc::serde_transport::new::<End, M, M, Json<M, M>>(Framed::new(a, LengthDelimitedCodec::new()), Json::default());
             let wt = sim.spawn("writer", write_all::<M, _, _>(sim.clone(), w, scn.clone(), sh.clone(), Some(raw)));
@@ -639,6 +793,13 @@ fn spawn_rt<M: Wire>(sim: &Rc<Sim>, scn: &RtScn, sh: &Rc<RefCell<RtShared>>) -> 
         }
         Medium::SerdeBincode => {
             let (a, b) = pipe(scn.pipe.clone());
+            if scn.duplex {
+                let w = tarpc::serde_transport::new::<End, M, M, Bincode<M, M>>(Framed::new(a, LengthDelimitedCodec::new()), Bincode::default());
+                let r = tarpc::serde_transport::new::<End, M, M, Bincode<M, M>>(Framed::new(b, LengthDelimitedCodec::new()), Bincode::default());
+                let wt = sim.spawn("writer", duplex_end::<M, _, _>(sim.clone(), w, scn.clone(), sh.clone(), true));
+                let rt = sim.spawn("reader", duplex_end::<M, _, _>(sim.clone(), r, scn.clone(), sh.clone(), false));
+                return (wt, rt);
+            }
             let raw = a.wr.clone();
             let w = tarpc::serde_transport::new::<End, M, M, Bincode<M, M>>(Framed::new(a, LengthDelimitedCodec::new()), Bincode::default());
             let wt = sim.spawn("writer", write_all::<M, _, _>(sim.clone(), w, scn.clone(), sh.clone(), Some(raw)));
@@ -684,6 +845,11 @@ fn run_roundtrip(scn: &RtScn, tape: Tape) -> RunOutput {
             (sh, wt, rt)
         },
         |sim, st| {
+            if scn2b.duplex {
+                let sh = st.0.borrow();
+                // both directions over (or failed); a deadlock ends the run by quiescence
+                return if sh.reader_done.is_some() && sh.back_done.is_some() { IdleAct::Stop } else { IdleAct::Wait };
+            }
             let back = scn2b.back_msgs > 0 && scn2b.end == EndKind::Close;
             let sh = st.0.borrow();
             let reader_over = sim.is_done(st.2) || (back && sh.reader_done.is_some());
@@ -795,6 +961,29 @@ fn run_roundtrip(scn: &RtScn, tape: Tape) -> RunOutput {
                             }
                         }
                     }
+                }
+            }
+            // duplex: the other direction, judged by plain equality
+            if v.is_empty() && scn.duplex && !sim.overrun.get() && sim.panics.borrow().is_empty() {
+                let want: Vec<Norm> = sh
+                    .back_written
+                    .iter()
+                    .cloned()
+                    .map(|mut n| {
+                        if n.kind == "err" && !KINDS[..PORTABLE].iter().any(|k| format!("{k:?}") == n.errkind) {
+                            n.errkind = format!("{:?}", io::ErrorKind::Other);
+                        }
+                        n
+                    })
+                    .collect();
+                match &sh.back_done {
+                    Some(Ok(())) => {
+                        if sh.received_back != want || sh.back_written.len() != scn.msgs.len() {
+                            v.push(viol("C15", if sh.received_back.len() < want.len() { "loss" } else { "mismatch" }, &[medium_tag, "duplex"], format!("both ends wrote {} messages to each other at once; one end read {} of them before end-of-stream", scn.msgs.len(), sh.received_back.len())));
+                        }
+                    }
+                    Some(Err(e)) => v.push(viol("C15", "spurious-error", &[medium_tag, "duplex"], format!("duplex exchange failed after {} of {} items: {e}", sh.received_back.len(), scn.msgs.len()))),
+                    None => v.push(viol("C15", "no-eof", &[medium_tag, "duplex"], format!("both ends wrote {} messages to each other at once over a {}-byte pipe; the exchange stalled with {} and {} of them delivered: neither direction may wait for the other", scn.msgs.len(), scn.pipe.cap, sh.received.len(), sh.received_back.len()))),
                 }
             }
             // the way back, after this end's own write side was closed and the other end saw it
